@@ -93,6 +93,11 @@ class Check:
         for fid, f in sorted(reproduced.items()):
             print(f"KNOWN-FINDING: property={self.prop} {fid}: {f['what']} "
                   f"[{absorbed[fid]} rejection(s)]")
+        import os as _os
+        if _os.environ.get("VERIF_DUMP_KEYS"):
+            Path(_os.environ["VERIF_DUMP_KEYS"]).write_text(json.dumps(
+                [{"key": r["key"], "what": r["what"], "known": match_known(self.prop, r["key"], known) is not None}
+                 for r in self.rejections]))
         if violations:
             summary: dict[str, int] = {}
             example: dict[str, str] = {}
